@@ -17,6 +17,9 @@ def gen_case(seed, n, quick):
     cls = CLASSES[n % len(CLASSES)]
     nlive = int(NLIVES[(n // len(CLASSES)) % len(NLIVES)])
     exp = ["logt", "t"][(n // (len(CLASSES) * len(NLIVES))) % 2]
+    # nessai accepts the mode case-insensitively (validation and every consumer lower-case it): one case in four spells it differently
+    spelling = {"logt": ["logt", "logt", "logt", "LogT", "LOGT", "logT"], "t": ["t", "t", "t", "T"]}[exp]
+    spelling = spelling[(n // 3) % len(spelling)]
     sched = ["const_closing", "varying", "const"][int(rng.integers(3))]
     maxlen = 1200 if quick else 5000
     deep = rng.random() < 0.25  # long runs: log-volumes far below the float64 underflow point of exp()
@@ -64,7 +67,7 @@ def gen_case(seed, n, quick):
         nl = np.full(N, float(nlive))
     else:
         nl = rng.integers(1, max(2, 2 * nlive + 1), N).astype(float)
-    return dict(n=n, cls=cls, nlive=nlive, expectation=exp, sched=sched, logL=x, nlives=nl)
+    return dict(n=n, cls=cls, nlive=nlive, expectation=exp, spelling=spelling, sched=sched, logL=x, nlives=nl)
 
 
 def close(a, b, tol):
@@ -87,6 +90,7 @@ def check_sequence(c):
     logL, nls, exp, nlive = c["logL"], c["nlives"], c["expectation"], c["nlive"]
     N = len(logL)
     ref = reference(logL.tolist(), nls.tolist(), exp)
+    exp = c.get("spelling", exp)  # what nessai is given (the reference above uses the canonical lower-case name)
     finite = logL[np.isfinite(logL)]
     maxabs = float(np.max(np.abs(finite))) if finite.size else 0.0
     maxn = float(np.max(nls))
@@ -196,7 +200,7 @@ def worker(case):
             import traceback
 
             probs, events = [("exception", f"{type(e).__name__}: {e}", traceback.format_exc()[-800:])], 0
-        out.append(dict(n=n, cls=c["cls"], nlive=c["nlive"], expectation=c["expectation"], sched=c["sched"], N=len(c["logL"]),
+        out.append(dict(n=n, cls=c["cls"], nlive=c["nlive"], expectation=c["expectation"], spelling=c.get("spelling", c["expectation"]), sched=c["sched"], N=len(c["logL"]),
                         distinct=int(np.unique(finite).size), events=events, problems=probs,
                         digest=hash(c["logL"].tobytes() + c["nlives"].tobytes()) & 0xFFFFFFFF,
                         head=[float(v) for v in c["logL"][:4]], tail=[float(v) for v in c["logL"][-2:]]))
@@ -275,6 +279,8 @@ def main():
             chk.count("monitor_events", r["events"])
             chk.count("sequences_" + r["cls"])
             chk.count("mode_" + r["expectation"])
+            if r.get("spelling", r["expectation"]) != r["expectation"]:
+                chk.count("mode_spelt_with_capitals")
             chk.count("schedule_" + r["sched"])
             nontriv = r["distinct"] >= 2 and r["events"] > 0
             chk.case_done(ident=(r["cls"], r["nlive"], r["expectation"], r["sched"], r["N"], r["digest"]), nontrivial=nontriv,
@@ -287,7 +293,7 @@ def main():
                "(constant+closing, per-iteration varying, constant); every increment, finalise, compute_weights (int and array paths) and 6 shifts "
                "are compared with an mpmath evaluation; plus a hypothesis @given pass. Non-trivial = at least two distinct finite likelihood values "
                "and at least one monitored comparison; distinct = (class, nlive, mode, schedule, length, data digest).",
-               require_observed=["monitor_events"])
+               require_observed=["monitor_events", "mode_spelt_with_capitals"])
 
 
 if __name__ == "__main__":
